@@ -23,8 +23,8 @@ Definition rd_read (r : rd) (free : nat) : outcome (bytes * rd) :=
   match ev with
   | Fail => Err E_Io
   | Data n =>
-      let want := Nat.max (N.to_nat n) 1 in
-      let k := Nat.min want (Nat.min free (length (rest r))) in
+      let lim := Nat.min free (length (rest r)) in
+      let k := N.to_nat (N.min (N.max n 1) (N.of_nat lim)) in
       Ok (firstn k (rest r), mkrd (skipn k (rest r)) sch (S (calls r)) (delivered r + k))
   end.
 (* the schedule advances on a failed call as well *)
@@ -50,7 +50,9 @@ Inductive fill_res :=
 
 Definition bw_fill_buf (b : bufwin) (r : rd) : fill_res :=
   let carry := length (win b) in
-  if Nat.leb (cap b) carry then FillOk 0 b r
+  if Nat.leb (cap b) carry then
+    (* a slice-backed window (no buffer) is at the end of its data; otherwise the buffer is full *)
+    if Nat.eqb (cap b) 0 then FillOk 0 b r else FillFull b r
   else
     let b1 := mkbw (cap b) (win b) 0 (prior b + consumed b) in
     match rd_read r (cap b - carry) with
